@@ -73,7 +73,11 @@ def describe(pools, kind, key):
         last = [len(pools[kind][f]) for f in fields]
         d1 = {f: i for f, i in zip(fields, ix) if i != 1}
         d2 = {f: i for f, i, l in zip(fields, ix, last) if i != l}
+        nb = {"message": 2, "blank": 2}
+        d3 = {f: i for f, i in zip(fields, ix) if i != nb.get(f, 1)}
         base, d = ("first", d1) if len(d1) <= len(d2) else ("last", d2)
+        if dict(zip(fields, ix))["blank"] == 2:
+            base, d = "noblank", d3
         return f"{kind}@{base}{{" + ",".join(f"{f}={i}" for f, i in sorted(d.items())) + "}", frozenset(d.items()), base
     if kind == "tree":
         parts = frozenset(key.split(" ")) if key else frozenset()
@@ -111,10 +115,21 @@ def phase_grammar(ctx, only=None):
     d = ctx.tmpdir("og")
     dump = os.path.join(d, "og")
     poolf = os.path.join(d, "pools.json")
-    cfg = ctx.pick("ObjGrammar_quick.cfg", "ObjGrammar_thorough.cfg")
+    cfg = ctx.pick("ObjGrammar_quick_cases.cfg", "ObjGrammar_thorough_cases.cfg")
     res = tlc.run("ObjGrammar.tla", cfg, workers=8, dump_states=dump, env={"POOL_FILE": poolf},
                   timeout=ctx.pick(300, 1500))
-    ctx.add_tlc(f"ObjGrammar[{cfg}] cases + one-field-edit graph, lemmas WellFormed/TreeSorted/OtherSegsStable/TreeEditLocal", res)
+    ctx.add_tlc(f"ObjGrammar[{cfg}] enumeration of the cases with their token sequences; WellFormed, TreeSorted", res)
+    # the one-field-edit graph over the same cases (lemmas OtherSegsStable, TreeEditLocal) is explored
+    # by a second TLC while the children replay the cases
+    import threading
+    ecfg = ctx.pick("ObjGrammar_quick_edits.cfg", "ObjGrammar_thorough_edits.cfg")
+    box = {}
+
+    def edits():
+        box["res"] = tlc.run("ObjGrammar.tla", ecfg, workers=ctx.pick(4, 6), timeout=ctx.pick(300, 1500))
+    th = threading.Thread(target=edits)
+    th.start()
+    ctx.edit_thread = (th, box, ecfg)
     pools = L.load_pools(poolf)
     ctx.pools, ctx.dump, ctx.poolf = pools, dump + ".dump", poolf
     table = {(k, key): toks for k, key, toks in L.read_dump(ctx.dump)}
@@ -146,6 +161,13 @@ def phase_grammar(ctx, only=None):
     ctx.cov["grammar"] = {"cases": len(table), **tot, "failures": sum(r["nfail"] for r in results)}
     ctx.log(f"grammar replay: {tot} failures={sum(r['nfail'] for r in results)}")
     report_failures(ctx, pools, fails, "grammar")
+    th.join()
+    eres = box.get("res")
+    if eres is None:
+        raise MachineryError("TLC run of the edit graph did not return")
+    ctx.add_tlc(f"ObjGrammar[{ecfg}] one-field-edit graph; OtherSegsStable, TreeEditLocal, WellFormed, TreeSorted", eres)
+    if eres.distinct != res.distinct:
+        raise MachineryError(f"edit graph has {eres.distinct} states, case enumeration {res.distinct}")
     return pools
 
 
@@ -566,12 +588,12 @@ def phase_git(ctx):
             raise MachineryError(f"git hash-object and hashlib disagree on {len(bad)} canonical objects, e.g. {bad[0]}")
         # fsck --strict: rejected set must be exactly the cases the specification predicts
         flagged = {i for i, msgs in repo.fsck_errors().items()}
-        byid = {ids[i]: keys[i] for i in range(len(keys))}
-        rejected = {byid[i] for i in flagged if i in byid}
-        predicted = {k for k in keys if not L.STRICT.get(k, True)}
+        rejected = flagged & set(ids)                      # (different cases may be the same object: compare names)
+        predicted = {ids[i] for i, k in enumerate(keys) if not L.STRICT.get(k, True)}
         if rejected != predicted:
-            diff = sorted(rejected ^ predicted)[:5]
-            raise MachineryError(f"git fsck --strict and ObjGrammar!GitStrictOK disagree ({algo}) on {len(rejected ^ predicted)} cases, e.g. {diff}")
+            byid = {ids[i]: keys[i] for i in range(len(keys))}
+            diff = sorted(byid[i] for i in (rejected ^ predicted))[:5]
+            raise MachineryError(f"git fsck --strict and ObjGrammar!GitStrictOK disagree ({algo}) on {len(rejected ^ predicted)} objects, e.g. {diff}")
         # mktree: git sorts the entries itself and must arrive at the specification's bytes
         trees = [k for k in keys if k[0] == "tree"]
         tids = repo.mktree_batch([list(reversed(L.tree_entries(key, algo))) for (_, key) in trees])
